@@ -40,6 +40,11 @@ class Translate(Domain):
         )
         shifted_points = points[:, list(self.space.keys())].as_tensor - translate_values
         # points[:, list(self.space.keys())] = Points(shifted_points, self.space)
+        # parameters can also be stored in the columns of the given points
+        all_params = points.join(params)
+        other_vars = [v for v in all_params.space.keys() if v not in self.space]
+        if other_vars:
+            params = all_params[:, other_vars]
         return self.domain._contains(Points(shifted_points, self.space), params)
 
     def sample_random_uniform(
